@@ -296,6 +296,14 @@ def _edit(case, ctx):
             ctx.violation(f"edit-touched-other-keys:{lab}", f"editing {k!r} also changed {others}", one)
             continue
         newv = dict(new_items).get(k)
+        try:
+            lib = sigproc.parse_header(path)   # no stale cached header after an in-place edit
+        except ZeroDivisionError:
+            lib = {}                           # nbits or nchans edited to 0: the sample count is undefined, not our subject
+            ctx.count("edit:zero_nbits_or_nchans")
+        if k in lib and k in dict(new_items) and lib[k] != newv and not (isinstance(newv, float) and newv != newv):
+            ctx.violation(f"parse-after-edit-stale:{lab}", f"after edit_header the file holds {k}={newv!r} but parse_header returns {lib[k]!r}", one)
+            continue
         if cls.startswith("valid") and k in dict(items):
             want = v
             okv = (newv == want) or (isinstance(want, str) and isinstance(newv, str) and newv.rstrip(" ") == want[: len(dict(items)[k])].rstrip(" "))
